@@ -15,6 +15,11 @@ func (s *SoftCollection) SetType(typ *Type) {
 	// All the resources share the collection's type.
 	for i := range s.col {
 		s.col[i].SetType(typ)
+
+		// The values of the fields that the new type does not have are
+		// dropped now. Otherwise they would come back if a field with
+		// the same name is added later.
+		s.col[i].check()
 	}
 }
 
